@@ -29,7 +29,8 @@ def shapes(thorough, rnd):
         for i, f in enumerate(fl):
             a, k = ARGS[(n + i) % len(ARGS)]
             pid = "p%d" % (i + 1)
-            payloads[pid] = {"flavour": f, "args": a, "kwargs": k, "cleanup": i % 2}
+            # (some payloads have no __module__, like functions made by exec() in a bare namespace)
+            payloads[pid] = {"flavour": f, "args": a, "kwargs": k, "cleanup": i % 2, "nomodule": (n + i) % 3 == 0}
         # p1 is queued before start; p2/p3 are adopted afterwards from any context
         proto.append({"op": "adopt", "p": "p1"})
         ctx["p2"] = ["driver", "thread", "payload:p1"]
